@@ -53,7 +53,7 @@ class DocBuilder:
         self.w = w
         self.o = dict(clash=0.2, foreign=0.15, value_kinds=None, repeat_id=0.2, malformed=0.05,
                       paths=("new_record", "factory", "conv"), defaults=0.3, bare=True, fulluri=True,
-                      multi=0.2, anon=0.5, dup_formal=0.06, xml=False, subtypes=0.0)
+                      multi=0.2, anon=0.5, dup_formal=0.06, xml=False, subtypes=0.0, plain_binary=0.0)
         self.o.update(opts)
         self.ids = {}        # scope -> list of identifiers used (QualifiedName objects as returned)
         self.elems = {}      # scope -> list of (handle, kind)
@@ -235,6 +235,10 @@ class DocBuilder:
             v2 = (self.time() if l in TIME_ATTRS else self.ref(c)) if g.chance(0.7) else args[i]
             if v2 is not None:
                 other = other + [(PROV[l] if g.chance(0.5) else "prov:" + l, v2)]
+        if kind in NO_ID_KINDS and g.chance(self.o["plain_binary"]):
+            # alternateOf / specializationOf / mentionOf / hadMember as PROV-N knows them: no identifier, no attributes
+            ident = None
+            other = []
         h = err = None
         if path == "conv" and not elem and self.elems[c]:
             cands = [(m, k) for (eh, ek) in self.elems[c] for (m, k) in CONV[ek] if k == kind]
